@@ -744,6 +744,8 @@ ExitStatus Builder::Build(string* err) {
         }
 
         if (!StartEdge(edge, err)) {
+          if (jobserver_.get())
+            jobserver_->Release(std::move(edge->job_slot_));
           Cleanup();
           status_->BuildFinished();
           return ExitFailure;
@@ -787,6 +789,12 @@ ExitStatus Builder::Build(string* err) {
       }
 
       if (result.interrupted() || result.exit_status() == ExitInterrupted) {
+        // A command that exited with the interrupt status is no longer an
+        // active edge of the command runner: give its job slot back here.
+        if (result.command_completed() && jobserver_.get()) {
+          jobserver_->Release(
+              std::move(result.GetCommandCompleted().edge->job_slot_));
+        }
         Cleanup();
         status_->BuildFinished();
         *err = "interrupted by user";
